@@ -45,6 +45,7 @@ int main(int argc, char **argv) {
         if (t[0] == "StrtoBig") {   // StrtoBig fn ch k tail base : the text is k copies of the character ch (white space or '0') followed by tail; k up to 2^31 and more
             // (texts of gigabytes: offsets and counts that do not fit 31 / 32 bits).  The buffer is kept between calls with the same ch and k.
             const std::string &fn = t[1]; int ch = num(t[2]); unsigned long long k = strtoull(t[3].c_str(), 0, 10); auto tl = blist(t[4]); int base = num(t[5]);
+            { unsigned keep0 = g_op_timeout; if (keep0) { g_op_timeout = 900; watchdog(true); g_op_timeout = keep0; } }     // gigabytes to fill and to scan
             static char *big = 0; static unsigned long long bigk = 0; static int bigch = -1;
             if (!big || bigk != k || bigch != ch) { free(big); big = (char *)malloc(k + 64); if (!big) { perror("malloc"); exit(3); } memset(big, ch, k); bigk = k; bigch = ch; }
             memcpy(big + k, tl.data(), tl.size()); big[k + tl.size()] = 0;
